@@ -432,19 +432,22 @@ func trySkipTrailer(r network.Reader, n int) error {
 	return nil
 }
 
+// skipTrailer returns the length of the trailer section at the head of buf. Lines end at
+// LF (with or without a CR before it), as they do for the scanner that reads a trailer
+// section: the section must end in the same place whether it is read or skipped.
 func skipTrailer(buf []byte) (int, error) {
 	skip := 0
-	strCRLFLen := len(bytestr.StrCRLF)
 	for {
-		index := bytes.Index(buf, bytestr.StrCRLF)
+		index := bytes.IndexByte(buf, '\n')
 		if index == -1 {
 			return 0, errs.ErrNeedMore
 		}
+		line := buf[:index]
+		buf = buf[index+1:]
+		skip += index + 1
 
-		buf = buf[index+strCRLFLen:]
-		skip += index + strCRLFLen
-
-		if index == 0 {
+		// an empty line (possibly a lone CR) ends the section
+		if len(line) == 0 || (len(line) == 1 && line[0] == '\r') {
 			return skip, nil
 		}
 	}
